@@ -1523,8 +1523,10 @@ int32 parseServerHello(ssl_t *ssl, int32 hsLen, unsigned char **cp,
     int32 rc;
     unsigned char *extData;
     unsigned char *c;
+    int32 sentIdNotEchoed = 0; /* We offered a session id, server chose another */
 
     c = *cp;
+    PS_VARIABLE_SET_BUT_UNUSED(sentIdNotEchoed); /* Only used ifdef USE_STATELESS_SESSION_TICKETS */
 
     psTracePrintHsMessageParse(ssl, SSL_HS_SERVER_HELLO);
 
@@ -1619,6 +1621,7 @@ int32 parseServerHello(ssl_t *ssl, int32 hsLen, unsigned char **cp,
                 ssl->sessionIdLen = (unsigned char) sessionIdLen;
                 Memcpy(ssl->sessionId, c, sessionIdLen);
                 ssl->flags &= ~SSL_FLAGS_RESUMED;
+                sentIdNotEchoed = 1;
 # ifdef USE_MATRIXSSL_STATS
                 matrixsslUpdateStat(ssl, FAILED_RESUMPTIONS_STAT, 1);
 # endif
@@ -1658,6 +1661,7 @@ int32 parseServerHello(ssl_t *ssl, int32 hsLen, unsigned char **cp,
             ssl->sessionIdLen = 0;
             Memset(ssl->sessionId, 0x0, SSL_MAX_SESSION_ID_SIZE);
             ssl->flags &= ~SSL_FLAGS_RESUMED;
+            sentIdNotEchoed = 1;
 # ifdef USE_MATRIXSSL_STATS
             matrixsslUpdateStat(ssl, FAILED_RESUMPTIONS_STAT, 1);
 # endif
@@ -1824,6 +1828,15 @@ int32 parseServerHello(ssl_t *ssl, int32 hsLen, unsigned char **cp,
             Spec requires the same sessionId to be returned if ticket is accepted.
          */
         ssl->sid->sessionTicketState = SESS_TICKET_STATE_IN_LIMBO;
+        if (sentIdNotEchoed)
+        {
+            /* RFC 5077 3.4: a server that accepts the ticket MUST echo a
+                non-empty ClientHello session id.  This one did not, so the
+                ticket was declined and the session secret has been wiped
+                above: only a full handshake may follow, and a
+                ChangeCipherSpec in place of Certificate is an error */
+            ssl->sid->sessionTicketState = SESS_TICKET_STATE_INIT;
+        }
     }
 # endif /* USE_STATELESS_SESSION_TICKETS        */
 
